@@ -14,6 +14,7 @@ SOCK_TRUSTED = [
 ]
 
 PROXY_TRUSTED = [
+    "translated from the C++ on every run: ProxyHandler::process of proxyhandler.cpp (the socket is re-parented, ONE ProxySocket is created with the routed path as handed in and the configured address and port); bridge theorems QhttpBridge.Ph",
     "translated from the C++ on every run: ProxySocket::onUpstreamReadyRead, onUpstreamError, onDownstreamReadyRead of proxysocket.cpp over the model's Proxy.St in the vocabulary of Qhttp/Model/PxPrim.lean (calls on the downstream HTTP socket = the socket model's API; what a socket hands out when read = a parameter; trusted); bridge theorems QhttpBridge.Proxy.* prove them equal to Proxy.onUpstreamReadyRead / onUpstreamError / the branch relayReads takes; onUpstreamConnected (request line, forwarded headers, flush of the buffered body) is proved equal to the model's upstreamHead + buffered bytes (onUpstreamConnected_eq; the reverse loop over X-Forwarded-For values by induction)",
 ]
 
@@ -169,7 +170,7 @@ SOCK_ALL = _sock("SetStatusCode", "SetHeader", "SetHeaders", "WriteHeaders", "Wr
                  "BytesAvailable", "IsHeadersParsed", "ContentLength", "ReadData", "ReadDataSlot", "OnBytesWritten", "OnReadChannelFinished",
                  "ReadHeaders", "OnReadyRead")
 RANGE_ALL = ["QhttpBridge.Range.Base"] + ["QhttpBridge.Range." + n for n in ("IsValid", "From", "To", "Length", "DataSize", "Ctor3", "CtorResize")]
-PROXY_ALL = ["QhttpBridge.Proxy.Base"] + ["QhttpBridge.Proxy." + n for n in ("OnUpstreamError", "OnUpstreamReadyRead", "OnDownstreamReadyRead", "OnUpstreamConnected")]
+PROXY_ALL = ["QhttpBridge.Proxy.Base"] + ["QhttpBridge.Proxy." + n for n in ("OnUpstreamError", "OnUpstreamReadyRead", "OnDownstreamReadyRead", "OnUpstreamConnected")] + ["QhttpBridge.Ph"]
 
 # parser.cpp: ONE module, with no entry in BRIDGE_NEEDS on purpose: every theorem of QhttpBridge.Parser is proved for the translated
 # function AND for the model's stand-in the translator emits for a function outside its subset (`first | stand-in | translated`
@@ -179,6 +180,7 @@ PARSER_ALL = ["QhttpBridge.Parser"]
 FS_ALL = ["QhttpBridge.Fs.AbsolutePath", "QhttpBridge.Fs.Process"]
 
 BRIDGE_NEEDS = {
+    "QhttpBridge.Ph": ["ProxyHandler::process"],
     "QhttpBridge.SrvProcess": ["ServerPrivate::process"],
     "QhttpBridge.Srv": ["Server::incomingConnection"],
     "QhttpBridge.LocalAuth": ["LocalAuthMiddleware::process"],
